@@ -130,7 +130,7 @@ def check(repo, rep):
             isnone = a == ('c', None) or (a == ('p', 'max_read') and any((g := norm_cmp(c[0], c[1])) and g[0] == 'is' and g[1] == ('p', 'max_read') and g[2] == ('c', None) for c in l.conds))
             rep.ob('without max_read (None or negative) everything that remains is read', isnone, cx.where('core', reads[-1][3]), '_read_offline:read-all', 'reads %s' % (show(a)[:60] if a else None))
         v = l.value
-        okv = v[0] == 'tuple' and len(v[1]) == 4 and (v[1][0] == reads[-1][1] or v[1][0] == ('c', b''))
+        okv = v[0] == 'tuple' and len(v[1]) == 4 and (v[1][0] == reads[-1][1] or v[1][0] == ('c', b'') or v[1][0] == ('or', (reads[-1][1], ('c', b''))))
         rep.ob('load() returns the data of the LAST read (after the skip) or empty bytes', okv, W(l.node), '_read_offline:result', 'returns %s' % show(v)[:100])
         opens = [i for i, e in enumerate(l.effects) if e[0] == 'call' and e[1][0] == 'call' and e[1][1][0] == 'attr' and e[1][1][2] == 'open']
         firstread = min(i for i, e in enumerate(l.effects) if e in reads)
